@@ -358,8 +358,56 @@ func checkC05(ops []bop, variant int, level c05Level) error {
 
 	// Swap pass: a first per-block reader pass replaces every merge by its result
 	// (as the column Apply functions do); a second pass must see, per offset, the
-	// same sequence with each merge turned into a put of the result.
-	return checkSwap(buf, ops, blocks)
+	// same sequence with each merge turned into a put of the result. The same on
+	// buffers that went through the buffer codec and the commit codec first.
+	var enc2 bytes.Buffer
+	if _, err := buf.WriteTo(&enc2); err != nil {
+		return err
+	}
+	dec2 := commit.NewBuffer(0)
+	if _, err := dec2.ReadFrom(bytes.NewReader(enc2.Bytes())); err != nil {
+		return err
+	}
+	var decodedCommits []*commit.Buffer
+	for i, b := range blocks {
+		if i >= 2 && i < len(blocks)-2 {
+			continue
+		}
+		cm := commit.Commit{ID: 9, Chunk: commit.Chunk(b), Updates: []*commit.Buffer{buf}}
+		var w bytes.Buffer
+		if _, err := cm.WriteTo(&w); err != nil {
+			return err
+		}
+		var back commit.Commit
+		if _, err := back.ReadFrom(bytes.NewReader(w.Bytes())); err != nil {
+			return err
+		}
+		decodedCommits = append(decodedCommits, back.Updates[0])
+		_ = b
+	}
+	if err := checkSwap(buf, ops, blocks); err != nil {
+		return err
+	}
+	if err := checkSwap(dec2, ops, blocks); err != nil {
+		return fmt.Errorf("on a buffer that went through Buffer.WriteTo/ReadFrom: %v", err)
+	}
+	k := 0
+	for i, b := range blocks {
+		if i >= 2 && i < len(blocks)-2 {
+			continue
+		}
+		var part []bop
+		for _, o := range ops {
+			if uint32(o.Off)>>14 == b {
+				part = append(part, o)
+			}
+		}
+		if err := checkSwap(decodedCommits[k], part, []uint32{b}); err != nil {
+			return fmt.Errorf("on block %d of a commit that went through Commit.WriteTo/ReadFrom: %v", b, err)
+		}
+		k++
+	}
+	return nil
 }
 
 func checkCommitEquals(back *commit.Commit, id uint64, block uint32, ops []bop) error {
@@ -393,6 +441,7 @@ func checkCommitEquals(back *commit.Commit, id uint64, block uint32, ops []bop) 
 
 func checkLog(log *commit.Log, commits []commit.Commit, blocks []uint32, ops []bop) error {
 	i := 0
+	var kept []commit.Commit
 	err := log.Range(func(cm commit.Commit) error {
 		if i >= len(commits) {
 			return fmt.Errorf("log yields more than the %d appended commits", len(commits))
@@ -400,6 +449,7 @@ func checkLog(log *commit.Log, commits []commit.Commit, blocks []uint32, ops []b
 		if err := checkCommitEquals(&cm, commits[i].ID, blocks[i], ops); err != nil {
 			return fmt.Errorf("commit #%d: %v", i, err)
 		}
+		kept = append(kept, cm)
 		i++
 		return nil
 	})
@@ -408,6 +458,12 @@ func checkLog(log *commit.Log, commits []commit.Commit, blocks []uint32, ops []b
 	}
 	if i != len(commits) {
 		return fmt.Errorf("log yields %d of %d appended commits", i, len(commits))
+	}
+	// a consumer may keep the commits it was handed: they must still read the same after Range returned
+	for k := range kept {
+		if err := checkCommitEquals(&kept[k], commits[k].ID, blocks[k], ops); err != nil {
+			return fmt.Errorf("commit #%d, read again after Range returned (a consumer kept it): %v", k, err)
+		}
 	}
 	return nil
 }
